@@ -21,7 +21,7 @@ ASSUMPTIONS = ["fields compared at rtol 1e-9 of the field maximum with the rough
 REQUIRED_MONITORS = ["C09.rot:generation-field", "C09.rot:dissipation-field", "C09.rot:bulk-rates", "C09.rot:roughness",
                      "C09.rot:stress-magnitude", "C09.rot:stress-direction", "C09.rot:dissipation-direction",
                      "C09.mirror:generation-field", "C09.mirror:dissipation-field", "C09.mirror:stress-direction",
-                     "C09.mirror:dissipation-direction", "C09.rot:inversion"]
+                     "C09.mirror:dissipation-direction", "C09.rot:inversion", "C09.rot:inversion(direction-iteration)"]
 REQUIRED_COUNTERS = {"C09.N:16": 1, "C09.N:24": 1, "C09.N:36": 1}
 TIMEOUT = {"quick": 1800, "thorough": 7200}
 N = {"quick": (6, 6), "thorough": (12, 8)}
@@ -54,6 +54,10 @@ def outputs(b, c, E, wdir, z_supplied, with_inversion):
         inv = estimate_u10_from_source_terms(s, b)
         out["inv_u10"] = np.asarray(inv["u10"].values, float)
         out["inv_dir"] = np.asarray(inv["direction"].values, float)
+        # the same with the wind direction iterated towards the stress direction
+        inv2 = estimate_u10_from_source_terms(s, b, direction_iteration=True)
+        out["invit_u10"] = np.asarray(inv2["u10"].values, float)
+        out["invit_dir"] = np.asarray(inv2["direction"].values, float)
     return out
 
 
@@ -89,6 +93,18 @@ def compare(ctx, tag, base, other, field_map, shift, sign, wit, pair):
                   key=f"C09:{tag}:{nm}")
         if dev.size:
             ctx.ratio(f"C09.{tag}:{mon}", float(dev.max()), 1e-4)
+    if "invit_u10" in base and "invit_u10" in other:
+        a, b_ = base["invit_u10"], other["invit_u10"]
+        same_nan = np.array_equal(np.isnan(a), np.isnan(b_))
+        fin = np.isfinite(a) & np.isfinite(b_)
+        okv = bool(np.all(np.abs(a[fin] - b_[fin]) <= 0.03 + 1e-6 * np.abs(a[fin])))
+        ctx.check(f"C09.{tag}:inversion(direction-iteration)", same_nan and okv, wit, {"base": a, "other": b_},
+                  key=f"C09:{tag}:inversion-iterated:u10")
+        da_, db_ = base["invit_dir"], other["invit_dir"]
+        okd = np.isfinite(da_) & np.isfinite(db_) & fin
+        dev = np.abs(circ_diff(db_[okd], sign * da_[okd] + shift))
+        ctx.check(f"C09.{tag}:inversion(direction-iteration)", bool(np.all(dev <= 1e-2)), wit,
+                  {"base": da_, "other": db_, "shift": shift}, key=f"C09:{tag}:inversion-iterated:direction")
     if "inv_u10" in base and "inv_u10" in other:
         a, b_ = base["inv_u10"], other["inv_u10"]
         same_nan = np.array_equal(np.isnan(a), np.isnan(b_))
@@ -117,13 +133,24 @@ def judge(ctx, c):
     if not ok:
         return
     ks = list(range(1, nd)) if c.get("allk") else [int(k) for k in c["ks"]]
+    inv_ks = set(ks[:1])
+    if with_inv and np.isfinite(base["dis_dir"][0]):
+        # seam-targeted rotations: put the dissipation-weighted direction of the first point just below and
+        # just above 0/360, so that the seam lies between it and the stress direction in one of the two
+        kstar = int(np.round((360.0 - base["dis_dir"][0]) / step)) % nd
+        for kk in (kstar, (kstar - 1) % nd, (kstar + 1) % nd):
+            if kk != 0:
+                inv_ks.add(kk)
+                if kk not in ks:
+                    ks.append(kk)
     for k in ks:
         ctx.case((c["kind"], nd, pair, "rot"), nontrivial=k % nd != 0, sample={"kind": c["kind"], "N": nd, "k": k, "pair": pair})
         wit = lambda: {"gen": c, "k": k}  # noqa
-        inv_here = with_inv and (k == ks[0])
+        inv_here = with_inv and (k in inv_ks)
         b0 = dict(base)
         if not inv_here:
             b0.pop("inv_u10", None)
+            b0.pop("invit_u10", None)
         ok, other = guarded(ctx, "C09.no-exception",
                             lambda: outputs(b, c, np.roll(E, k, axis=-1), wdir + k * step, base["z_used"], inv_here), wit,
                             key="C09:exception")
@@ -134,6 +161,7 @@ def judge(ctx, c):
     wit = lambda: {"gen": c, "mirror": True}  # noqa
     b0 = dict(base)
     b0.pop("inv_u10", None)
+    b0.pop("invit_u10", None)
     ok, other = guarded(ctx, "C09.no-exception", lambda: outputs(b, c, E[..., idx], -wdir, base["z_used"], False), wit,
                         key="C09:exception")
     if ok:
